@@ -299,6 +299,12 @@ def tx_coq(ast):
     return '[' + '; '.join('(%s, [%s])' % (kq(m['c']), '; '.join(leaf_coq(f) for f in m['fs'])) for m in ast) + ']'
 
 
+FALLBACK_GEN = '''(* fallback when lcapy/laplace.py cannot be translated: the specification forms stand in for the generated ones, so
+   that the correspondence cases still compare the real code with the specification *)
+Require Import LT.FieldSec LT.PolyQ LT.ExpPoly LT.LaplaceSig LT.LaplaceModel.
+Definition gen_forms (K : fld) (V : lenv K) : forms K :=
+  spec_forms K (l_ex K V) (l_sn K V) (l_cs K V) (l_neg K V) (l_Fn K V) (l_Ic K V).
+'''
 CASES_HEAD = '''(* GENERATED correspondence cases for C09 (checks/c09.py). *)
 Require Import LT.FieldSec LT.QcI LT.PolyQ LT.ExpPoly LT.LaplaceSig LT.LaplaceModel LT.LaplaceExec Gen.LaplaceGen.
 From Coq Require Import QArith Qcanon.
@@ -312,9 +318,92 @@ def cases_v(items):
     lines = [CASES_HEAD, 'Definition cases : list (nat * nat) := [']
     body = []
     for idx, D, zic, ast, s0, want, evs, chk in items:
-        body.append('(%d%%nat, rc %d %s %s (qi %d 1 0 1) %s [%s] %s)' % (
+        strict = any(f[0] == 'delta' and Fraction(f[3][0]) == 0 for m in ast for f in m['fs'])
+        body.append('(%d%%nat, rc %d %s %s (qi %d 1 0 1) %s [%s] %s %s)' % (
             idx, D, 'true' if zic else 'false', tx_coq(ast), s0, kq(want),
-            '; '.join('%d%%nat' % e for e in evs), 'true' if chk else 'false'))
+            '; '.join('%d%%nat' % e for e in evs), 'true' if chk else 'false', 'true' if strict else 'false'))
+    lines.append(';\n'.join(body))
+    lines.append('].\nDefinition failing := filter (fun p => negb (Nat.eqb (snd p) 0)) cases.\nEval vm_compute in failing.\n')
+    return '\n'.join(lines)
+
+
+def parse_failing(out):
+    m = re.search(r'=\s*\[(.*?)\]\s*:\s*list \(nat \* nat\)', out, re.S)
+    if not m:
+        return None
+    body = m.group(1).strip()
+    if not body:
+        return []
+    return [(int(a), int(b)) for a, b in re.findall(r'\((\d+)(?:%nat)?\s*,\s*(\d+)(?:%nat)?\)', body)]
+
+
+DS = [24, 144]
+
+
+def make_points(rng, npts=2):
+    pts = []
+    for s0 in rng.sample([5, 7, 11, 13], npts):
+        syms = {n: '%d/%d' % (rng.choice([2, 3, 5, 7]), rng.choice([1, 2])) for n in SYMS}
+        pts.append({'s0': s0, 'Ds': DS, 'syms': syms})
+    return pts
+
+
+# ------------------------------------------------------------------------------------------ Coq case files
+def kq(js):
+    a, b = Fraction(js[0]), Fraction(js[1])
+    return '(qi (%d) %d (%d) %d)' % (a.numerator, a.denominator, b.numerator, b.denominator)
+
+
+LEAF = {'exp': 'LExp', 'sin': 'LSin', 'cos': 'LCos', 'sinh': 'LSinh', 'cosh': 'LCosh', 'u': 'LU',
+        'rect': 'LRect', 'tri': 'LTri', 'ramp': 'LRamp', 'rstep': 'LRstep'}
+
+
+def leaf_coq(f):
+    t = f[0]
+    if t == 'powt':
+        return '(P %d)' % f[1]
+    if t in LEAF:
+        return '(%s (K:=QcIF) %s %s)' % (LEAF[t], kq(f[1]), kq(f[2]))
+    if t == 'delta':
+        return '(LDelta (K:=QcIF) %d %s %s)' % (f[1], kq(f[2]), kq(f[3]))
+    if t == 'undef':
+        return '(LUndef (K:=QcIF) %d %s %s)' % (f[1], kq(f[2]), kq(f[3]))
+    if t == 'deriv':
+        return '(LDeriv (K:=QcIF) %d %d)' % (f[1], f[2])
+    if t == 'integ':
+        return '(LInteg (K:=QcIF) %d)' % f[1]
+    if t == 'conv':
+        return '(LConv (K:=QcIF) %d %d)' % (f[1], f[2])
+    raise ValueError(t)
+
+
+def tx_coq(ast):
+    return '[' + '; '.join('(%s, [%s])' % (kq(m['c']), '; '.join(leaf_coq(f) for f in m['fs'])) for m in ast) + ']'
+
+
+FALLBACK_GEN = '''(* fallback when lcapy/laplace.py cannot be translated: the specification forms stand in for the generated ones, so
+   that the correspondence cases still compare the real code with the specification *)
+Require Import LT.FieldSec LT.PolyQ LT.ExpPoly LT.LaplaceSig LT.LaplaceModel.
+Definition gen_forms (K : fld) (V : lenv K) : forms K :=
+  spec_forms K (l_ex K V) (l_sn K V) (l_cs K V) (l_neg K V) (l_Fn K V) (l_Ic K V).
+'''
+CASES_HEAD = '''(* GENERATED correspondence cases for C09 (checks/c09.py). *)
+Require Import LT.FieldSec LT.QcI LT.PolyQ LT.ExpPoly LT.LaplaceSig LT.LaplaceModel LT.LaplaceExec Gen.LaplaceGen.
+From Coq Require Import QArith Qcanon.
+Definition P (n : nat) : leaf QcIF := LPowT n.
+Definition rc (D : positive) := run_case (gen_forms QcIF (xenv D)) D.
+'''
+
+
+def cases_v(items):
+    """items: (index, D, zic, ast, s0, want_js, events, check_events)"""
+    lines = [CASES_HEAD, 'Definition cases : list (nat * nat) := [']
+    body = []
+    for idx, D, zic, ast, s0, want, evs, chk in items:
+        strict = any(f[0] == 'delta' and Fraction(f[3][0]) == 0 for m in ast for f in m['fs'])
+        body.append('(%d%%nat, rc %d %s %s (qi %d 1 0 1) %s [%s] %s %s)' % (
+            idx, D, 'true' if zic else 'false', tx_coq(ast), s0, kq(want),
+            '; '.join('%d%%nat' % e for e in evs), 'true' if chk else 'false', 'true' if strict else 'false'))
     lines.append(';\n'.join(body))
     lines.append('].\nDefinition failing := filter (fun p => negb (Nat.eqb (snd p) 0)) cases.\nEval vm_compute in failing.\n')
     return '\n'.join(lines)
@@ -388,6 +477,30 @@ OBLIGATION_KEYS = {
     'ramp_closed_form_is_integral': ['LaplaceTransformer.function:ramp:scale'],
     'table_entry_sc_guard': ['LaplaceTransformer.sin_cos:three-factors-without-exp'],
 }
+def explains(name, key):
+    """does the concrete failing input with fingerprint `key` account for the broken obligation `name`?"""
+    if key in OBLIGATION_KEYS.get(name, []):
+        return True
+    if not key.startswith('value:'):
+        return False
+    fs = set(key[len('value:'):].split('*'))
+    if name in ('table_entry_sincos', 'sincos_closed_form_is_integral'):
+        return bool(fs & {'sin', 'cos'}) and fs <= {'exp', 'sin', 'cos', 'u'}
+    if name == 'table_entry_func':
+        return 'undef' in fs and fs <= {'undef', 'exp'}
+    if name == 'table_entry_deriv':
+        return fs == {'deriv'}
+    if name == 'table_entry_integ':
+        return fs == {'integ'}
+    if name == 'table_entry_conv':
+        return fs == {'conv'}
+    if name == 'table_entry_const':
+        return fs == {'1'}
+    if name == 'table_entry_exp':
+        return fs == {'exp'}
+    return False
+
+
 # files whose statements need other files
 DEPENDS = {
     'C09_int_sincos.v': ['C09_entry_sincos.v'], 'C09_int_rect.v': ['C09_entry_rect.v'], 'C09_int_tri.v': ['C09_entry_tri.v'],
@@ -454,7 +567,7 @@ def run(tier='quick', replay=None):
     res = core.Result(PID, tier)
     rng = random.Random(core.seed() * 104729 + 9)
     core.ensure_theory(['FieldSec', 'PolyQ', 'ExpPoly', 'QcI', 'LaplaceSig', 'LaplaceModel', 'LaplaceExec',
-                        'LaplaceAnalysis', 'LaplaceLink'])
+                        'LaplaceAnalysis', 'LaplaceLink', 'LaplacePointwise'])
     w = core.Work(PID)
     violations = []
     try:
@@ -499,6 +612,13 @@ def run(tier='quick', replay=None):
                 res.failed_obl.append(('LaplaceGen', 'LaplaceGen.v', out[-800:]))
                 res.obligations += 1
             res.extra['sin_cos_guards'] = [list(g) for g in tr.guards]
+        spec_only = False
+        if not gen_ok:
+            # the source could not be translated: the props cannot be checked, but the real code can still be compared
+            # with the SPECIFICATION (the model run with the hand-written specification forms) to find a failing input
+            w.write('LaplaceGen.v', FALLBACK_GEN)
+            ok, out, secs = core.coqc(w.dir, 'LaplaceGen.v')
+            spec_only = ok
         # ---- 2. cases on the real code -------------------------------------------------------------------------
         n_expr = 64 if tier == 'quick' else 700
         g = Gen(rng)
@@ -509,6 +629,8 @@ def run(tier='quick', replay=None):
                 print('replay file has no case (it names a theorem/correspondence): %s' % (replay.get('theorem') or replay.get('key')))
             else:
                 c.setdefault('points', make_points(rng))
+                c.setdefault('kinds', ['replay'])
+                c.setdefault('zic', False)
                 c['oracle'] = True
                 cases = [c]
         else:
@@ -519,7 +641,7 @@ def run(tier='quick', replay=None):
             cases += history_cases(rng)
             # corpus of past findings, always run first
             for txt in ('tri(2*t)', 'rampstep(t/3)', 'rect(t - 1/4)', 'ramp(t + 1)', 'sin(2*t)*u(t - 1)*u(t - 3)',
-                        'diff(delta(2*t - 1), t)', 'v(t)*delta(t - 1)'):
+                        'diff(delta(2*t - 1), t)', 'v(t)*delta(t - 1)', '5*delta(t)', 'cos(t)*delta(t) + t', 'exp(-2*t)*diff(delta(t), t)'):
                 cases.insert(0, {'expr': txt, 'zic': False, 'kinds': ['corpus'], 'points': make_points(rng), 'oracle': True})
         tph['translate+gen'] = round(time.time() - t_, 1); t_ = time.time()
         results = core.run_impl('impl_laplace.py', cases) if cases else []
@@ -558,14 +680,18 @@ def run(tier='quick', replay=None):
             return names
 
         items, meta = coq_items(cases, results, {})
-        case_files = eval_cases(items, 'a') if gen_ok else []
+        case_files = eval_cases(items, 'a') if (gen_ok or spec_only) else []
         # ---- 3. prove (phase 2) + evaluate the cases, in parallel ------------------------------------------------
         proof_files = []
-        if gen_ok:
+        if replay:
+            r2 = core.coqc_many(w.dir, case_files, timeout=900) if case_files else {}
+        elif gen_ok:
             for f in PHASE2 + PHASE3:
                 texts[f] = open(os.path.join(core.VERIF, 'coq', 'props', f)).read()
                 w.write(f, texts[f])
             bad = core.gate_text('generated+props', '\n'.join(texts.values()))
+            bad += core.gate_files([os.path.join(core.COQ_THEORY, f) for f in sorted(os.listdir(core.COQ_THEORY))
+                                    if f.startswith('Laplace') and f.endswith('.v')])
             if bad:
                 res.failed_obl.append(('gate', 'props', '; '.join(bad)))
                 res.obligations += 1
@@ -586,7 +712,7 @@ def run(tier='quick', replay=None):
             res.extra['coq_seconds'] = {f: round(r[2], 1) for f, r in list(r2.items()) + list(r3.items())}
             proof_files = list(allr)
         else:
-            r2 = {}
+            r2 = core.coqc_many(w.dir, case_files, timeout=900) if case_files else {}
             # the props cannot be checked without the generated definitions
             for f in PHASE2 + PHASE3:
                 t = open(os.path.join(core.VERIF, 'coq', 'props', f)).read()
@@ -612,11 +738,11 @@ def run(tier='quick', replay=None):
             retry = {}
             for k, code in fail.items():
                 i, pi, D = meta[k]
-                if code == 1 and rnd < len(DS) and (results[i].get('oracle') or {}).get('verdict') != 'mismatch':
+                if code in (1, 5) and rnd < len(DS) and (results[i].get('oracle') or {}).get('verdict') != 'mismatch':
                     retry[(i, pi)] = rnd
                 else:
                     final_fail[(i, pi)] = code
-            if not retry or not gen_ok:
+            if not retry or not (gen_ok or spec_only):
                 break
             level.update(retry)
             sub_cases_idx = sorted(set(i for i, _ in retry))
@@ -680,7 +806,10 @@ def run(tier='quick', replay=None):
                 if o.get('verdict') == 'mismatch':
                     suspects.append((i, 'quadrature of the defining integral differs from the returned transform'))
         for (i, pi), code in sorted(final_fail.items()):
-            if code in (1, 3) and not any(i == j for j, _ in suspects):
+            if code == 5:
+                if not any(i == j for j, _ in suspects):
+                    suspects.append((i, 'the returned transform differs from the specification value at s = %s (exact evaluation inside Coq)' % cases[i]['points'][pi]['s0']))
+            elif code in (1, 3) and not any(i == j for j, _ in suspects):
                 o = (results[i].get('oracle') or {}).get('verdict')
                 res.disagreements.append({'case': cases[i], 'lcapy': results[i].get('result'), 'code': code, 'oracle': o, 'point': cases[i]['points'][pi]})
             elif code == 2:
@@ -689,6 +818,12 @@ def run(tier='quick', replay=None):
         # one extra round on the real code: inputs around broken obligations + single terms of failing sums
         broken = [n for n, f, m in res.failed_obl if not m.startswith('not checked')]
         tc = targeted_cases(rng, broken) if (broken and not replay) else []
+        if any(d['code'] in (1, 2, 3) for d in res.disagreements) and not replay:
+            # the dispatch / the model differs: probe the boundary inputs of every branch
+            for txt in ('delta(t)', '3*delta(t) + exp(-t)', 'diff(delta(t), t)', 'exp(-2*t)*delta(t)', 'cos(t)*delta(t)', 'u(t - 1)',
+                        't*u(t - 2)', 'exp(-t)*u(t)', 'u(t)', 'delta(t - 1)*t', 'exp(2*t + 1)', 'sinh(t)', 't**2', 'v(t)*u(t)',
+                        'rect(t)', 'ramp(t)*1', 'cos(3*t)*u(t)'):
+                tc.append({'expr': txt, 'zic': False, 'kinds': ['boundary'], 'points': make_points(rng, 1), 'oracle': True, 'targeted': True})
         mini = []
         for i, why in suspects:
             r = results[i]
@@ -725,8 +860,11 @@ def run(tier='quick', replay=None):
             ast = (r.get('ast') or [None])[0]
             if ast is not None and len(ast) == 1:
                 key = classify(ast)
-                found.setdefault(key, {'case': {'expr': cases[i]['expr'], 'zic': cases[i]['zic']}, 'lcapy': r.get('result'),
-                                       'oracle': r.get('oracle'), 'why': why})
+                cc = {'expr': cases[i]['expr'], 'zic': cases[i]['zic']}
+                if cases[i].get('pre'):
+                    cc['pre'] = cases[i]['pre']
+                    key = 'cache-history:' + key
+                found.setdefault(key, {'case': cc, 'lcapy': r.get('result'), 'oracle': r.get('oracle'), 'why': why})
         # sums none of whose single terms fails alone
         for i, why in suspects:
             r = results[i]
@@ -756,8 +894,7 @@ def run(tier='quick', replay=None):
         # ---- 7. broken obligations / correspondence without a failing input --------------------------------------------
         explained = set()
         for name, f, msg in res.failed_obl:
-            keys = OBLIGATION_KEYS.get(name, [])
-            if any(k in found for k in keys):
+            if any(explains(name, k) for k in found):
                 explained.add(name)
         root_broken = [n for n, f, m in res.failed_obl if not m.startswith('not checked') and n not in explained]
         for name, f, msg in res.failed_obl:
@@ -775,7 +912,7 @@ def run(tier='quick', replay=None):
             sig = 'dispatch' if d['code'] == 2 else 'value'
             # fingerprint: kinds of the expression
             k = 'correspondence:%s:%s' % (sig, '+'.join(sorted(set(c['kinds']))))
-            if k in seen_corr:
+            if k in seen_corr or len(seen_corr) >= 3:
                 continue
             seen_corr.add(k)
             violations.append({'key': k, 'what': 'the hand model of LaplaceTransformer.term/doit and the real transformer differ (%s)' % sig,
